@@ -163,8 +163,8 @@ fn c19_tile_order_l8() {
     std::mem::forget(out);
 }
 
-// @tier quick
-// @timeout 900
+// @tier thorough
+// @timeout 2400
 // @bounds 16x8 RGBA5551 texture (two tiles), payload element k holds the 16-bit value k (distinct per position), the probed element index symbolic
 // @claims tile layout across tiles and for 16-bit elements: element k = tile*64 + Morton index lands on pixel (tile_x*8 + x, y), little-endian element order
 #[kani::proof]
@@ -190,6 +190,29 @@ fn c19_tile_order_16bit_two_tiles() {
     kani::cover!(k == 100);
     std::mem::forget(out);
     std::mem::forget(want);
+}
+
+// @tier quick
+// @timeout 900
+// @bounds 16x8 L8 texture (two tiles), payload byte k = k (concrete, distinct per position), probed element symbolic
+// @claims tile layout across tiles: element k = tile*64 + Morton index lands on pixel (tile_x*8 + x, y)
+#[kani::proof]
+#[kani::unwind(130)]
+fn c19_tile_order_two_tiles_l8() {
+    let mut payload = [0u8; 128];
+    for k in 0..128 {
+        payload[k] = k as u8;
+    }
+    let out = keep(td::decode_pixel_data(&payload, 16, 8, 7)).unwrap();
+    assert!(out.len() == 16 * 8 * 4, "C19: 16x8 texture decodes to 128 RGBA pixels");
+    let k: usize = kani::any();
+    kani::assume(k < 128);
+    let tile = k / 64;
+    let (x, y) = morton(k % 64);
+    let p = (y * 16 + tile * 8 + x) * 4;
+    assert!(out[p] == k as u8 && out[p + 3] == 255, "C19: element does not land on its Z-order position of its tile (tile walk)");
+    kani::cover!(k == 100);
+    std::mem::forget(out);
 }
 
 // ---------------------------------------------------------------------------------------------
@@ -277,6 +300,7 @@ fn etc1_check(block: u64, alphas: u64, with_alpha: bool) {
 // @timeout 1200
 // @mem 12
 // @bounds one fully symbolic ETC1 block in individual mode (all 2^63 such words), 4x4 texture, any pixel of the block
+// @unwindset extend_with=70
 // @claims ETC1 individual mode: base colours, modifier tables, flip, selector bits follow the Khronos rules exactly; opaque alpha; no overflow in any profile
 #[kani::proof]
 #[kani::unwind(18)]
@@ -290,6 +314,7 @@ fn c19_etc1_individual() {
 // @timeout 1200
 // @mem 12
 // @bounds one fully symbolic ETC1 block in differential mode with every base+delta inside 0..=31 (negative deltas included), 4x4 texture, any pixel
+// @unwindset extend_with=70
 // @claims ETC1 differential mode: 5-bit bases, sign-extended 3-bit deltas, 5->8 bit expansion, tables/flip/selectors follow the Khronos rules exactly; identical in checked and unchecked builds (no arithmetic overflow)
 #[kani::proof]
 #[kani::unwind(18)]
@@ -304,6 +329,7 @@ fn c19_etc1_differential() {
 // @timeout 1200
 // @mem 12
 // @bounds ETC1A4: symbolic 64-bit alpha plane, colour block symbolic in the mode/flip/table/selector bits with fixed base colours, 4x4 texture, any pixel
+// @unwindset extend_with=70
 // @claims ETC1A4: alpha of pixel (x,y) is nibble x*4+y of the alpha word expanded by 17; colour block read from the second half of the 16-byte block
 #[kani::proof]
 #[kani::unwind(18)]
@@ -317,21 +343,42 @@ fn c19_etc1a4_alpha() {
 
 // @tier quick
 // @timeout 600
-// @bounds align: every value and increment below 2^32; crop: 8x4 input, symbolic target width/height <= 8x4; block_to_sequential: 16x8 texture of 8x4 blocks with position-coded bytes
-// @claims align rounds up to the next multiple (identity for increment <= 1); crop keeps the top-left width x height window; block_to_sequential moves byte (block b, row r, column c) to row b_row*4+r, column b_col*8+c
+// @bounds align: every value below 2^20 with increment in {0,1,4,8} (the block dimensions callers pass)
+// @claims align rounds up to the next multiple of the increment and is the identity for increment <= 1
 #[kani::proof]
-#[kani::unwind(130)]
-fn c19_block_helpers() {
+#[kani::unwind(6)]
+fn c19_align() {
     let v: usize = kani::any();
-    let inc: usize = kani::any();
-    kani::assume(v < (1 << 32) && inc < (1 << 32));
+    kani::assume(v < (1 << 20));
+    let sel: u8 = kani::any();
+    kani::assume(sel < 4);
+    let inc: usize = if sel == 0 { 0 } else if sel == 1 { 1 } else if sel == 2 { 4 } else { 8 };
     let al = tu::align(v, inc);
     if inc <= 1 {
         assert!(al == v, "C19: align with increment <= 1 is the identity");
     } else {
-        assert!(al >= v && al - v < inc && al % inc == 0, "C19: align must round up to the next multiple");
+        assert!(al >= v && al - v < inc && al & (inc - 1) == 0, "C19: align must round up to the next multiple");
     }
-    // block_to_sequential on 16x8 with 8x4 blocks: 4 blocks of 32 bytes
+    kani::cover!(sel == 3 && v == 9);
+}
+
+fn crop_check(seq: &[u8], w: usize, h: usize) {
+    let cropped = tu::crop(seq, 16, w, h);
+    assert!(cropped.len() == w * h, "C19: crop must return width x height bytes");
+    let rr: usize = kani::any();
+    let cc: usize = kani::any();
+    kani::assume(rr < h && cc < w);
+    assert!(cropped[rr * w + cc] == seq[rr * 16 + cc], "C19: crop must keep the top-left window");
+    std::mem::forget(cropped);
+}
+
+// @tier quick
+// @timeout 900
+// @bounds block_to_sequential: 16x8 texture of 8x4 blocks with position-coded bytes, probed byte symbolic; crop of the 16-wide result to (5x3), (9x8) or (16x8) chosen by the solver
+// @claims block_to_sequential moves byte (block b, row r, column c) to row b_row*4+r, column b_col*8+c; crop keeps the top-left width x height window
+#[kani::proof]
+#[kani::unwind(130)]
+fn c19_block_helpers() {
     let mut data = [0u8; 128];
     for i in 0..128 {
         data[i] = i as u8;
@@ -344,20 +391,12 @@ fn c19_block_helpers() {
     let (brow, bcol) = (block / 2, block % 2);
     let (r, c) = ((i % 32) / 8, i % 8);
     assert!(seq[(brow * 4 + r) * 16 + bcol * 8 + c] == i as u8, "C19: block_to_sequential misplaced a byte of an 8x4 block");
-    // crop 16-wide rows down to w x h
-    let w: usize = kani::any();
-    let h: usize = kani::any();
-    kani::assume(w == 5 || w == 16 || w == 9);
-    kani::assume(h == 3 || h == 8);
-    let cropped = tu::crop(&seq, 16, w, h);
-    assert!(cropped.len() == w * h, "C19: crop must return width x height bytes");
-    let rr: usize = kani::any();
-    let cc: usize = kani::any();
-    kani::assume(rr < h && cc < w);
-    assert!(cropped[rr * w + cc] == seq[rr * 16 + cc], "C19: crop must keep the top-left window");
-    kani::cover!(w == 9 && h == 3);
+    let sel: u8 = kani::any();
+    if sel == 0 { crop_check(&seq, 5, 3); }
+    if sel == 1 { crop_check(&seq, 9, 8); }
+    if sel == 2 { crop_check(&seq, 16, 8); }
+    kani::cover!(sel == 1);
     std::mem::forget(seq);
-    std::mem::forget(cropped);
 }
 
 // @tier quick
